@@ -18,7 +18,7 @@ EXPLANATION = ("Props/C08.v (all closed under the global context): kmpe_enc_soun
                "source-to-sink path per layer, weights and slacks in [0,w_max] of the requested type, and for every non-ignored edge "
                "scale*|f(e) - sum_i w_i x_i(e)| <= sum_i sigma_i x_i(e) where sigma_i is the slack (or the length-scaled slack) of layer i; the LP objective is the sum of the slacks; "
                "kmpe_factor_sound — with path-length factors sigma_i = slack_i * c_p for a range p containing the encoded length Len_i = sum_e len(e) x_i(e) (C12 piecewise / integer-product theorems through the row bridges); "
-               "kmpe_feasible_ge_width — (no length factors, no subpath constraints) any k unit s-t flows covering all non-ignored edges extend, with zero weights and slack max f, to a satisfying assignment, so every k >= width is feasible; "
+               "kmpe_is_valid_accepts — every satisfying assignment passes the per-edge test of is_valid_solution as the code computes it (scaled error, /repo 43fc741) for every tolerance >= 0; kmpe_is_valid_old_refuted documents the old unscaled test; kmpe_feasible_ge_width — (no length factors, no subpath constraints) any k unit s-t flows covering all non-ignored edges extend, with zero weights and slack max f, to a satisfying assignment, so every k >= width is feasible; "
                "kmpe_factors_gt1_refuted / kmpe_factors_lt1_refuted — with length factors the bounds of the code (gamma product bound w_max; slack bound w_max and bit width from w_max*max factor) make instances with k >= width infeasible (open findings). "
                "Optimality is relative to the solver specification (DESIGN §4); completeness beyond the feasibility witness is not proved (C08_full_statement). Cyclic class: E2 only. "
                "Tie: E1 per instance over the option space; E2 on every answer; exhaustive optimum on tiny instances.")
@@ -28,11 +28,8 @@ ASSUMPTIONS = ["HiGHS status kOptimal => returned assignment satisfies the rows 
 TRUSTED = ["models: coq/theories/ErrEnc.v (+ PathEnc.v, Blocks.v); wire/colkeys harness/e1err.py; LP read-back harness/lpdump.py",
            "E2 oracle side: harness/errlib.py brute force / covering number and harness/props.py recomputation (plain Python, exact Fractions)"]
 
-K_DROP = "node_mode_single_node_path_dropped"
 K_GT1 = "kmpe_factor_gt1_gamma_bound"
 K_LT1 = "kmpe_factor_lt1_slack_bound"
-K_VALID_SCALE = "kmpe_is_valid_ignores_error_scaling"
-K_VALID_SINGLE = "kmpe_is_valid_raises_on_single_node_path"
 K_CAP = "cycles_rep_cap_from_reachable_max"
 K_WMAXREP = "cycles_products_bounded_by_wmax"
 
@@ -69,13 +66,9 @@ def check_solution(ctx, cls, args, m, exact, eng="E2_mpe"):
     routes, weights, slacks = sol[rk], sol["weights"], sol["slacks"]
     sslacks = sol.get("scaled_slacks")
     dropped = errlib.dropped_single_node_routes(cls, args, sol, full)
-    if dropped and any(abs(w) > 1e-9 for _, w in dropped) or (dropped and any(abs(s) > 1e-9 for s in set(full["slacks"]))
-                                                               and len(sol[rk]) != len([r for r in full[rk] if len(r) >= 1])):
-        ctx.report(f"{cls} (node weights): get_solution() drops the single-node route(s) {dropped} with their weights/slacks", rep, key=K_DROP)
-        keep = [j for j, r in enumerate(full[rk]) if len(r) >= 1]
-        routes = [full[rk][j] for j in keep]; weights = [full["weights"][j] for j in keep]; slacks = [full["slacks"][j] for j in keep]
-        if sslacks is not None:
-            sslacks = [full["scaled_slacks"][j] for j in keep]
+    if dropped:
+        ctx.report(f"{cls} (node weights): get_solution() drops the single-node route(s) {dropped} with their weights/slacks", rep)
+        return None
     has_fac = bool(args.get("path_length_factors"))
     if has_fac:
         if sslacks is None:
@@ -101,19 +94,10 @@ def check_solution(ctx, cls, args, m, exact, eng="E2_mpe"):
     ctx.count(eng, "objective_ok")
     try:
         valid = m.is_valid_solution()
-    except ValueError as e:
-        single = any(len(r) == 1 for r in full.get("_paths_internal", full[rk]))
-        ctx.report(f"{cls}: is_valid_solution() raised {e!r} on the model's own optimum", rep,
-                   key=K_VALID_SINGLE if (single and "length 1" in str(e)) else None)
-        valid = True
     except Exception as e:
         ctx.report(f"{cls}: is_valid_solution() raised {e!r} on the model's own optimum", rep); valid = True
     if not valid:
-        # is_valid_solution compares the UNSCALED error with the slack: explained iff the inequality without scaling fails
-        unscaled = props.mpe_feasible(G, args["flow_attr"], routes, weights, use, origin, ign,
-                                      {x: (1 if s != 0 else 0) for x, s in sc.items()}, exact=ex, tol=1e-3)
-        ctx.report(f"{cls}: is_valid_solution() rejects the model's own optimal solution", rep,
-                   key=K_VALID_SCALE if (c07.scaled_lt1(args) and unscaled) else None)
+        ctx.report(f"{cls}: is_valid_solution() rejects the model's own optimal solution", rep)
     else:
         ctx.count(eng, "is_valid_solution_accepts")
     return so
